@@ -100,6 +100,18 @@ class Gen:
     def data(self, shape, kind="int"):
         rng = self.rng
         n = int(np.prod(shape)) if len(shape) else 1
+        if n > 1_000_000:
+            raise ValueError(f"corpus tensor of {n} elements: beyond the corpus bound (callers skip this size assignment)")
+        if n > 400:
+            nr = np.random.RandomState(rng.randrange(2 ** 31))
+            if kind in ("int", "posint"):
+                v = nr.randint(-50, 400, size=n).astype(np.int64)
+                v = np.abs(v) + 1 if kind == "posint" else v
+                return v.reshape(shape)
+            if kind in ("float", "pos"):
+                return (nr.uniform(-2, 2, size=n) if kind == "float" else nr.uniform(0.5, 2, size=n)).reshape(shape)
+            if kind == "bool":
+                return (nr.rand(n) < 0.5).reshape(shape)
         if kind == "int":
             v = np.array(rng.sample(range(-50, 400), n) if n <= 400 else [rng.randint(-50, 400) for _ in range(n)], dtype=np.int64)
         elif kind == "float":
